@@ -391,6 +391,93 @@ Section WithApprox.
         eapply timer_scale_fit_spec; eauto.
     Qed.
 
+    (* the two readings of scale_spec the property names *)
+    Lemma scale_linear : forall c f (r : SR) r' k i q v,
+      ratios_pos c -> index_consistent c ->
+      scale approx c f r = Done r' ->
+      nth_error (sr_ingredients r) k = Some i -> si_quantity i = Some q ->
+      sq_value q = SLinear v -> is_text v = false ->
+      exists i' x oi oc ot,
+        nth_error (r_ingredients r') k = Some i' /\ ig_frame i' = si_frame i /\ ig_quantity i' = Some x /\
+        r_data r' = Scaled f oi oc ot /\ nth_error oi k = Some OScaled /\
+        times_amount c f {| q_value := v; q_unit := sq_unit q |} x.
+    Proof.
+      intros c f r r' k i q v Hp Hi H Hk Hq Hv Ht.
+      destruct (scale_spec c f r r' Hp Hi H)
+        as (_ & _ & oi & oc & ot & Hd & _ & _ & _ & _ & _ & _ & Hing & _).
+      destruct (Hing k i Hk) as (i' & o & Hn & Ho & Hf & Hr).
+      unfold quantity_rel in Hr. rewrite Hq in Hr. destruct Hr as (x & Hx & Hr).
+      rewrite Hv, Ht in Hr. destruct Hr as [Hr ->].
+      exists i', x, oi, oc, ot. repeat split; try assumption.
+      unfold quantity_default in Hr. rewrite Hv in Hr. exact Hr.
+    Qed.
+
+    Lemma scale_fixed : forall c f (r : SR) r',
+      ratios_pos c -> index_consistent c ->
+      scale approx c f r = Done r' ->
+      exists oi oc ot, r_data r' = Scaled f oi oc ot /\ r_inline r' = sr_inline r /\
+      (forall k i, nth_error (sr_ingredients r) k = Some i ->
+         exists i', nth_error (r_ingredients r') k = Some i' /\
+         match si_quantity i with
+         | None => ig_quantity i' = None /\ nth_error oi k = Some ONoQuantity
+         | Some q =>
+             match sq_value q with
+             | SFixed v => exists x, ig_quantity i' = Some x /\ nth_error oi k = Some OFixed /\
+                                     same_amount c {| q_value := v; q_unit := sq_unit q |} x
+             | SLinear v => is_text v = true ->
+                            ig_quantity i' = Some {| q_value := v; q_unit := sq_unit q |} /\
+                            nth_error oi k = Some OError
+             end
+         end) /\
+      (forall k t, nth_error (sr_timers r) k = Some t ->
+         exists t', nth_error (r_timers r') k = Some t' /\ tm_name t' = st_name t /\
+         match st_quantity t with
+         | None => tm_quantity t' = None /\ nth_error ot k = Some ONoQuantity
+         | Some q =>
+             match sq_value q with
+             | SFixed v => exists x, tm_quantity t' = Some x /\ nth_error ot k = Some OFixed /\
+                                     same_amount c {| q_value := v; q_unit := sq_unit q |} x
+             | SLinear v => exists o, nth_error ot k = Some o /\
+                                      quantity_rel c f (Some q) (tm_quantity t') o
+             end
+         end) /\
+      (forall k w, nth_error (sr_cookware r) k = Some w ->
+         exists w', nth_error (r_cookware r') k = Some w' /\ ck_frame w' = sc_frame w /\
+         match sc_quantity w with
+         | None => ck_quantity w' = None /\ nth_error oc k = Some ONoQuantity
+         | Some (SFixed v) => ck_quantity w' = Some v /\ nth_error oc k = Some OFixed
+         | Some (SLinear v) => exists o, nth_error oc k = Some o /\
+                                         cookware_rel f (Some (SLinear v)) (ck_quantity w') o
+         end).
+    Proof.
+      intros c f r r' Hp Hi H.
+      destruct (scale_spec c f r r' Hp Hi H)
+        as (_ & Hin & oi & oc & ot & Hd & _ & _ & _ & _ & _ & _ & Hing & Hcw & Htm).
+      exists oi, oc, ot. split; [exact Hd|]. split; [exact Hin|]. split; [|split].
+      - intros k i Hk. destruct (Hing k i Hk) as (i' & o & Hn & Ho & _ & Hr). exists i'.
+        split; [exact Hn|]. unfold quantity_rel in Hr. destruct (si_quantity i) as [q|].
+        + destruct Hr as (x & Hx & Hr). destruct (sq_value q) as [v|v] eqn:V.
+          * destruct Hr as [Hs ->]. exists x. split; [exact Hx|]. split; [exact Ho|].
+            unfold quantity_default in Hs. rewrite V in Hs. exact Hs.
+          * intro Ht. rewrite Ht in Hr. destruct Hr as [-> ->]. split; [|exact Ho].
+            rewrite Hx. unfold quantity_default. rewrite V. reflexivity.
+        + destruct Hr as [-> ->]. split; [reflexivity|exact Ho].
+      - intros k t Hk. destruct (Htm k t Hk) as (t' & o & Hn & Ho & Hname & Hr). exists t'.
+        split; [exact Hn|]. split; [exact Hname|]. destruct (st_quantity t) as [q|] eqn:Q.
+        + destruct (sq_value q) as [v|v] eqn:V.
+          * unfold quantity_rel in Hr. destruct Hr as (x & Hx & Hr). rewrite V in Hr.
+            destruct Hr as [Hs ->]. exists x. split; [exact Hx|]. split; [exact Ho|].
+            unfold quantity_default in Hs. rewrite V in Hs. exact Hs.
+          * exists o. split; [exact Ho|exact Hr].
+        + destruct Hr as [-> ->]. split; [reflexivity|exact Ho].
+      - intros k w Hk. destruct (Hcw k w Hk) as (w' & o & Hn & Ho & Hf & Hr). exists w'.
+        split; [exact Hn|]. split; [exact Hf|]. unfold cookware_rel in Hr.
+        destruct (sc_quantity w) as [[v|v]|].
+        + destruct Hr as [-> ->]. split; [reflexivity|exact Ho].
+        + exists o. split; [exact Ho|exact Hr].
+        + destruct Hr as [-> ->]. split; [reflexivity|exact Ho].
+    Qed.
+
     (* the frame alone, as list equalities *)
     Lemma scale_frame c f (r : SR) (r' : RR) :
       scale approx c f r = Done r' ->
